@@ -90,7 +90,7 @@ pub fn lenient_hint_decode(p: &r::Params, y: &[u8]) -> Vec<Poly> {
 
 fn run_set<S: PS>(ctx: &Ctx) -> Acc {
     let p = S::p();
-    let n_jobs = ctx.budget(16, 128) as usize;
+    let n_jobs = ctx.budget(16, 1536) as usize;
     let accs = par_map(n_jobs, |ji| {
         let mut acc = Acc::new();
         let mut g = Prng::derive(ctx.seed, &format!("c02-{}", p.name), ji as u64);
